@@ -29,8 +29,8 @@ func TestSmoke(t *testing.T) {
 	first := envInt("VERIF_FIRST", 0)
 	for i := first; i < first+n; i++ {
 		res := dispatchRun(t, cs.RunSpec{Property: prop, Seed: seed, Index: i, Trace: os.Getenv("VERIF_TRACE") != ""})
-		fmt.Printf("run %d: steps=%d reqs=%d passes=%d sim=%.0fs viol=%d incid=%d exercised=%v inconcl=%v mach=%q faults=%v\n",
-			i, res.Steps, res.Requests, res.Passes, res.SimSeconds, len(res.Viol), len(res.Incidental), res.Exercised, res.Inconcl, res.Machinery, res.Faults)
+		fmt.Printf("run %d: steps=%d reqs=%d passes=%d sim=%.0fs viol=%d incid=%d exercised=%v inconcl=%v mach=%q faults=%v hash=%x il=%x states=%d\n",
+			i, res.Steps, res.Requests, res.Passes, res.SimSeconds, len(res.Viol), len(res.Incidental), res.Exercised, res.Inconcl, res.Machinery, res.Faults, res.Hash, res.ILSig, len(res.States))
 		if os.Getenv("VERIF_TRACE") != "" {
 			for _, d := range res.Desc {
 				fmt.Println("  DESC", d)
